@@ -14,14 +14,14 @@ func init() {
 		"non-trivial = document differs from base; distinct = (source hash, document)"
 }
 
-var c03Devs = []string{"SIZED_UINT8_ARRAY_IS_BYTES", "NULL_OBJECT_VALIDATES_ZERO", "SIZED_INT_ENUM_REJECTS_ALL", "ADDL_INT_TRUNCATES", "ADDL_NONPRIMITIVE_UNTYPED", "NULL_TO_ADDL_STRUCT_ERRORS", "FORMAT_DEF_NO_METHODS", "NULLTYPE_UNENFORCED"}
+var c03Devs = []string{"REQUIRED_UNDECLARED_IGNORED", "SIZED_UINT8_ARRAY_IS_BYTES", "NULL_OBJECT_VALIDATES_ZERO", "SIZED_INT_ENUM_REJECTS_ALL", "ADDL_INT_TRUNCATES", "ADDL_NONPRIMITIVE_UNTYPED", "NULL_TO_ADDL_STRUCT_ERRORS", "FORMAT_DEF_NO_METHODS", "NULLTYPE_UNENFORCED"}
 
 func c03Types() []space.Leaf {
 	var ls []space.Leaf
 	for _, l := range space.Leaves(1) {
 		switch l.Name {
 		case "string", "integer", "number", "boolean", "null", "string-date", "string-time", "string-datetime", "string-ipv4", "string-ipv6",
-			"enum-str-typed", "enum-int-typed", "enum-num-typed", "enum-bool-typed", "array-str", "array-array", "array-obj", "object", "object-empty", "map-str", "map-obj", "map-int",
+			"enum-str-typed", "enum-int-typed", "enum-num-typed", "enum-bool-typed", "array-str", "array-array", "array-obj", "object", "object-empty", "map-str", "map-obj", "map-int", "map-int-required",
 			"integer-minmax", "object-addl-typed", "object-addl-str", "array-3d", "array-nullable-items", "array-null-items":
 			ls = append(ls, l)
 		}
